@@ -31,6 +31,10 @@ ASSUME CellsInhabited ==
     /\ \A c \in Range(UForms), p \in Range(UPositions) : Cell("unused", c.cls, p, 0) \in Ids
     /\ \A g \in Range(SizeGrid) : \A n \in Range(g.ns) : Cell("size", g.shape, "n" \o Num(n), n) \in Ids
     /\ \A c \in Range(CtlKinds), p \in {"start", "helper"} : Cell("ctl", c.cls, p, 0) \in Ids
+    /\ \A t \in Range(CfTransfers), f \in Range(CfFlavours), w \in Range(CfContexts), c \in Range(CfConstructs) :
+          (c # "loop-nodo" \/ f \in {"direct", "arg-fn", "arg-pu"}) => Cell("ctlfn", t \o "/" \o f, w \o "/" \o c, 0) \in Ids
+    /\ \A d \in Range(DeadTransfers), kd \in Range(DeadKinds), w \in Range(DeadWraps), bk \in Range(DeadBlocks) :
+          (Thorough \/ w = "top" \/ bk = "plain") => Cell("dead", d.cls \o "/" \o kd, w \o "/" \o bk, 0) \in Ids
     /\ Thorough => \A c1 \in Range(UOperands), c2 \in Range(UOperands) : Cell("unused2", c1.cls, c2.cls, 0) \in Ids
     /\ Len(UOperands) >= 50
 \* the spelling / literal under test really occurs in the program text
